@@ -142,6 +142,8 @@ class SynEngine:
             op = {'k': 'find', 's': rng.getrandbits(48)}
             if rng.random() < cfg['fault_rate']:
                 op['f'] = [{'at': f'pool.call#{rng.choice((1, 1, 2))}', 'kind': rng.choice(('timeout', 'timeout', 'death'))}]
+            elif rng.random() < cfg['fault_rate'] * 0.3:
+                op['f'] = [{'at': 'sat.solve#1', 'kind': 'backend-error'}]
             ops.append(op)
         return {'cfg': cfg, 'ops': ops}
 
@@ -389,6 +391,15 @@ class SynEngine:
         value = [v & cmask for v, cmask in zip(vals, care)]
         nviol0 = len(self.res.violations)
         faulted = None
+        if any(f.get('kind') == 'backend-error' for f in op.get('f', ())) and solves:
+            # the solver back end failed inside the job.  An exception that says so is fine; "no solution" or a circuit is
+            # an answer and is judged like any other (below).  Then the fault is over and the same finder is asked again.
+            st.bump('sat-backend-error-fired')
+            if exc is not None and exc_name(exc) != 'NoSolutionError':
+                st.bump(f'sat-backend-error-reached-the-caller:{exc_name(exc)}')
+                self.ev['out'] = 'fault:backend-error'
+                result, exc, solves, pools = self._retry_after_fault(finder, solver)
+                faulted = 'backend-error'
         # --- outcomes under faults; afterwards the faults stop and the same finder is asked again: the fault must
         #     not have poisoned it (bounded liveness: one more job gives the right answer)
         if uses_pool and fault == 'timeout' and pools:
